@@ -1169,7 +1169,7 @@ def to_json(
 
     See also #ak.from_json and #ak.Array.tojson.
     """
-    if array is None or isinstance(array, (bool, str, bytes, numbers.Number)):
+    if array is None or isinstance(array, (bool, str, numbers.Number)):
         return json.dumps(array)
 
     elif isinstance(array, bytes):
